@@ -101,11 +101,67 @@ def run3phase (j : Json) : Except String Json := do
   return Json.mkObj [("out", Json.arr (σ.out.map (fun s =>
     Json.arr #[Json.num (JsonNumber.fromInt s.ts), optJ s.v1, optJ s.v2, optJ s.v3])).toArray)]
 
+/-- Engine with fallback terms: replay of the OBSERVED trace.  Events: ["D",i,tick,val|null] (primary of term i),
+["F",i,tick,val|null] (fallback source of term i), ["fetch",i] (a `fetch_next()` of term i completed in the real run),
+["attach"] (the consumer attached: the engine task exists from here on), ["quiet"] (the real loop was run until no
+task could advance).  The model must be able to take every observed
+`fetch` (else its index goes to "bad") and must not be able to advance at a `quiet` point (else "bad" too).
+Output: {"out": [[tick,val]…], "fetched": [[i,tick,val]…], "bad": [event index…]} -/
+def runFb (j : Json) : Except String Json := do
+  let n ← getNat j "n"
+  let nz ← getBools j "nz"
+  let fb ← getBools j "fb"
+  let f := sumFormula nz
+  let hasFb : Nat → Bool := fun i => fb.getD i false
+  let evs ← getArr j "events"
+  let mut σ := FSt.init
+  let mut fetched : Array Json := #[]
+  let mut bad : Array Json := #[]
+  let mut idx := 0
+  let mut attached := false
+  for e in evs do
+    let a ← e.getArr?
+    let k ← a[0]!.getStr?
+    match k with
+    | "D" =>
+      let i ← a[1]!.getNat?
+      let ts ← a[2]!.getInt?
+      let v ← parseVal a[3]!
+      σ := stepF n f hasFb σ (.dP i ⟨ts, v⟩)
+    | "F" =>
+      let i ← a[1]!.getNat?
+      let ts ← a[2]!.getInt?
+      let v ← parseVal a[3]!
+      σ := stepF n f hasFb σ (.dF i ⟨ts, v⟩)
+    | "fetch" =>
+      let i ← a[1]!.getNat?
+      match tryFetch n f hasFb 0 σ i with
+      | some (σ', s) =>
+        σ := σ'
+        fetched := fetched.push (Json.arr #[Json.num (JsonNumber.fromNat i), Json.num (JsonNumber.fromInt s.ts), optJ s.val])
+      | none => bad := bad.push (Json.num (JsonNumber.fromNat idx))
+    | "attach" => attached := true
+    | "quiet" =>
+      -- the real evaluator awaits all first fetches concurrently, but fetches one lagging term after the other
+      -- while synchronising (in the iteration order of a set): there it is blocked on SOME lagging term
+      let ps := (List.range n).filter (fun i => permitted σ i)
+      let es := ps.filter (fun i => (tryFetch n f hasFb 0 σ i).isSome)
+      let couldAdvance := if σ.sync.isNone then !es.isEmpty else (!ps.isEmpty && es.length == ps.length)
+      if attached && couldAdvance then
+        bad := bad.push (Json.num (JsonNumber.fromNat idx))
+    | _ => throw s!"unknown event {k}"
+    idx := idx + 1
+  return Json.mkObj [
+    ("out", Json.arr (σ.out.map (fun s => Json.arr #[Json.num (JsonNumber.fromInt s.ts), optJ s.val])).toArray),
+    ("fetched", Json.arr fetched),
+    ("bad", Json.arr bad)]
+
 def runCase (j : Json) : Except String Json := do
   let kind ← getStr j "kind"
   match kind with
   | "single" => runSingle j
   | "3phase" => run3phase j
+  | "fb" => runFb j
   | _ => throw s!"unknown kind {kind}"
 
 def main : IO Unit := serve runCase
